@@ -9,8 +9,8 @@
 //          beside it: command sequences with path arguments; replies, transferred bytes and
 //          a snapshot of the whole window (root, its parent, its grandparent) afterwards.
 //
-// Fs.ChangeDir in services/ftp/ftpfs.go calls itself; CWD/CDUP are therefore probed in a
-// child process first and only used in-process when the child survives.
+// CWD/CDUP are probed in a child process first (Fs.ChangeDir in services/ftp/ftpfs.go used
+// to call itself: stack exhaustion) and are used in-process when the child survives.
 package main
 
 import (
